@@ -184,8 +184,11 @@ def _dyadic_linear(n_in, n_out, seed, dtype):
     return lin
 
 
-def LISTED_PRICE(spot):
-    """Deterministic dyadic pricer of the listed hedge: a convex function of the underlier's spot."""
+def LISTED_PRICE(spot, kind="convex"):
+    """Deterministic dyadic pricer of the listed hedge: a convex function of the underlier's spot,
+    or (kind="signed") a price that is NEGATIVE on part of the grid, like a swap's mark-to-market."""
+    if kind == "signed":
+        return spot - 1.125
     return torch.nn.functional.relu(spot - 1.125) + 0.25 * spot
 
 
@@ -198,7 +201,7 @@ def oracle_spots(hl):
         if hasattr(h, "named_buffers"):
             cols.append(h.get_buffer("spot"))
         else:
-            cols.append(LISTED_PRICE(h.ul().get_buffer("spot")))
+            cols.append(LISTED_PRICE(h.ul().get_buffer("spot"), getattr(h, "_verif_pricer_kind", "convex")))
     return torch.stack(cols, dim=1)
 
 
@@ -234,6 +237,11 @@ def build_world(block):
     if kind == "forward_start":
         kw = {"strike": 1.0, "start": market.DT}
     deriv = market.derivative(kind, stock, T=T, **kw)
+    if block.get("clauses"):
+        # clauses that really change the payoff on part of the path set (knock-out on the path maximum, cap)
+        deriv.add_clause("verif_knockout", lambda d, payoff: payoff.where(
+            d.ul().spot.max(-1).values < 1.5, torch.zeros_like(payoff)))
+        deriv.add_clause("verif_cap", lambda d, payoff: payoff.clamp(max=0.25))
     hv = block["hedge"]
     stock2 = None
     if hv in ("stock+stock2",):
@@ -243,7 +251,9 @@ def build_world(block):
     if hv in ("stock+listed", "listed", "listed+stock"):
         listed = I.EuropeanOption(stock, strike=1.125, maturity=(T - 1) * market.DT)
         # deterministic dyadic pricer: a convex function of the underlier's spot
-        listed.list(lambda d: LISTED_PRICE(d.ul().spot), cost=costs[-1])
+        pk = block.get("pricer", "convex")
+        listed._verif_pricer_kind = pk
+        listed.list(lambda d: LISTED_PRICE(d.ul().spot, pk), cost=costs[-1])
     hedge = {"default": None, "stock": [stock], "stock+stock2": [stock, stock2],
              "stock+listed": [stock, listed], "listed+stock": [listed, stock], "listed": [listed]}[hv]
     H = 1 if hedge is None else len(hedge)
@@ -383,7 +393,9 @@ def run(ctx):
              "x every payoff symbol (full product, itertools order), x cost variants x first-cost flag "
              "x payoff given/absent x dtype x {pl, terminal_value}; non-trivial = prices move and position "
              "changes on the row (cost index observable).  hedger_pl: all |A|^T price paths x hedge lists x "
-             "models x derivative kinds; non-trivial = paths on which the hedge changes over time")
+             "models x derivative kinds (x clauses on the hedged derivative, x a listed hedge whose price is "
+             "negative on part of the grid, x re-simulation rounds); non-trivial = paths on which the hedge "
+             "changes over time")
     ctx.assume("dyadic alphabets make every float operation of pl() exact, so the comparison is bitwise")
     As2, Au2 = [8, 12], [-4, 6]
     As3, Au3 = [8, 12, 6], [-4, 6, 0]
@@ -395,6 +407,8 @@ def run(ctx):
     ctx.alphabet("payoff/8", Ap)
     shapes = [(1, 2, As3 + [extra], Au3 + [extra_u]), (1, 3, As3, Au3), (2, 2, As3, Au3),
               (2, 3, As2, Au2), (3, 2, As2, Au2)]
+    # negative prices (rates, swaps, spreads): |position change| * price is NOT |position change * price|
+    shapes += [(1, 2, [8, -4, 12], Au3), (1, 3, [8, -4], Au3), (2, 2, [8, -4], Au2)]
     if ctx.thorough:
         shapes += [(1, 4, As3 + [extra], Au3 + [extra_u]), (1, 5, As3, Au3), (2, 4, As2, Au2),
                    (3, 3, As2, Au2), (2, 3, As3, Au3), (4, 2, As2, Au2), (1, 8, As2, Au2)]
@@ -442,6 +456,16 @@ def run(ctx):
         if dtype == "float32" and mv in ("bs", "ww"):
             continue  # transcendental models are compared in float64 only
         ctx.run("hedger_pl", block)
+        if T == 3 and dtype == "float64" and mv in ("linear", "linear_prev", "bs") and dk in ("european", "lookback"):
+            b4 = dict(block)
+            b4["clauses"] = True
+            b4["rounds"] = [0, 1]
+            ctx.run("hedger_pl", b4)
+            if "listed" in hv:
+                b5 = dict(block)
+                b5["pricer"] = "signed"
+                b5["rounds"] = [0, 1]
+                ctx.run("hedger_pl", b5)
         if T == 3 and dtype == "float64" and mv in ("linear", "linear_prev") and (dk == "european" or ctx.thorough):
             for cv in ([0, 3, 2], [1, 0, 0], [0, 0, 2], [0, 0, 0]):
                 b3 = dict(block)
